@@ -899,4 +899,139 @@ theorem read_then_flatten_all (L : Layout) (h : L.WF) (st : LogState) (hne : L.r
   rw [e2, flattenStyle_all, flatten_all _ (by simpa using hne)]
   simp [flatMap_def]
 
+
+/-! ## round 6: `flattenTables` runs the merge loop of the source -/
+
+/-- the cells of a merged row laid out under the union of the columns (`nan` where the run did not print the keyword) -/
+def projectRow (cols : List Str) (r : Row) : List Str :=
+  cols.map (fun c => match r.cells.find? (fun x => x.1 == c) with | some x => x.2 | none => "nan".toList)
+
+theorem flatten_uses_merge_loop (style : Str) (t t' : Table) (ts : List Table) (rows : List (List Row))
+    (hassert : (t :: t' :: ts).any (fun t => !t.rows.isEmpty && !t.cols.contains stepName) = false)
+    (hstyle : IsStyle style)
+    (hstep : style = "all".toList ∨ ∀ x ∈ t :: t' :: ts, stepName ∈ x.cols)
+    (hrows : (t :: t' :: ts).mapM (tableRows (!(style == "all".toList))) = .ok rows) :
+    flattenTables style (t :: t' :: ts) =
+      (flattenStyle Row.step style rows).map
+        (fun rs => ⟨unionCols (t :: t' :: ts), rs.map (projectRow (unionCols (t :: t' :: ts)))⟩) := by
+  have hattr : (!(style == "all".toList) && (t :: t' :: ts).any (fun t => !t.cols.contains stepName)) = false := by
+    rcases hstep with h | h
+    · simp [h]
+    · have : (t :: t' :: ts).any (fun t => !t.cols.contains stepName) = false := by
+        rw [any_eq_false]; intro x hx; simpa using h x hx
+      rw [this]; simp
+  unfold flattenTables
+  rw [hassert]
+  simp only [Bool.false_eq_true, if_false]
+  rcases hstyle with rfl | rfl | rfl
+  · have e1 : ("first".toList == "last".toList) = false := by decide
+    have e2 : ("first".toList == "all".toList) = false := by decide
+    simp only [e2, Bool.not_false, Bool.true_and] at hattr hrows
+    simp only [beq_self_eq_true, e1, e2, Bool.true_or, Bool.not_true, if_false, Bool.false_eq_true,
+      Bool.not_false, Bool.true_and, hattr, hrows, if_true, flattenStyle_first]
+    cases flattenFirst Row.step rows <;> rfl
+  · have e1 : ("last".toList == "first".toList) = false := by decide
+    have e2 : ("last".toList == "all".toList) = false := by decide
+    simp only [e2, Bool.not_false, Bool.true_and] at hattr hrows
+    simp only [beq_self_eq_true, e1, e2, Bool.true_or, Bool.or_true, Bool.not_true, if_false,
+      Bool.false_eq_true, Bool.not_false, Bool.true_and, hattr, hrows, if_true, flattenStyle_last, Bool.false_or]
+    cases flattenLast Row.step rows <;> rfl
+  · have e1 : ("all".toList == "first".toList) = false := by decide
+    have e2 : ("all".toList == "last".toList) = false := by decide
+    simp only [beq_self_eq_true, Bool.not_true] at hrows
+    simp only [beq_self_eq_true, e1, e2, Bool.true_or, Bool.or_true, Bool.not_true, if_false,
+      Bool.false_eq_true, Bool.not_false, hrows, if_true, flattenStyle_all, Bool.false_or, Bool.false_and]
+    cases flattenAll rows <;> rfl
+
+example : flattenTables "first".toList
+    [⟨["Step".toList, "Temp".toList], [["0".toList, "1.5".toList], ["10".toList, "2.5".toList]]⟩,
+     ⟨["Step".toList, "Press".toList], [["10".toList, "7".toList], ["20".toList, "8".toList]]⟩] =
+    (flattenStyle Row.step "first".toList
+      [[⟨0, [("Step".toList, "0".toList), ("Temp".toList, "1.5".toList)]⟩,
+        ⟨10, [("Step".toList, "10".toList), ("Temp".toList, "2.5".toList)]⟩],
+       [⟨10, [("Step".toList, "10".toList), ("Press".toList, "7".toList)]⟩,
+        ⟨20, [("Step".toList, "20".toList), ("Press".toList, "8".toList)]⟩]]).map
+      (fun rs => ⟨["Step".toList, "Temp".toList, "Press".toList],
+        rs.map (projectRow ["Step".toList, "Temp".toList, "Press".toList])⟩) := by decide
+
+/-! ## round 6: numeric tables need no quietness hypothesis -/
+
+theorem mem_of_containsStr (t l : Str) (h : containsStr t l = true) : ∀ c ∈ t, c ∈ l := by
+  induction l with
+  | nil =>
+    simp only [containsStr, List.isEmpty_iff] at h
+    subst h; intro c hc; simp at hc
+  | cons a as ih =>
+    simp only [containsStr, Bool.or_eq_true] at h
+    rcases h with h | h
+    · intro c hc
+      exact (List.isPrefixOf_iff_prefix.mp h).subset hc
+    · intro c hc; exact mem_cons_of_mem _ (ih h c hc)
+
+/-- a line without the capitals `M`, `P`, `L` holds no trigger string of `Log.read` (every one of the five kinds
+    contains one of them). -/
+theorem quiet_of_no_capital (l : Str) (hM : 'M' ∉ l) (hP : 'P' ∉ l) (hL : 'L' ∉ l) :
+    NoTrigger l ∧ PerfQuiet l := by
+  have key : ∀ (ts : List Str), (∀ t ∈ ts, 'M' ∈ t ∨ 'P' ∈ t ∨ 'L' ∈ t) → hasAny ts l = false := by
+    intro ts hts
+    rw [hasAny, any_eq_false]
+    intro t ht hc
+    have := mem_of_containsStr t l hc
+    rcases hts t ht with h | h | h
+    · exact hM (this _ h)
+    · exact hP (this _ h)
+    · exact hL (this _ h)
+  refine ⟨⟨key _ (by decide), key _ (by decide)⟩, Or.inr ⟨key _ (by decide), key _ (by decide)⟩⟩
+
+/-- the characters of a printed number (`-13.44`, `1e-3`, `2.5E+05`, `nan`, `inf`, `-inf`). -/
+def isNumChar (c : Char) : Bool := c.isDigit || "+-.eEnaif".toList.contains c
+
+theorem renderCells_chars (cells : List Cell) (trail : Str) (p : Char → Prop)
+    (hpad : ∀ c ∈ cells, ∀ x ∈ c.pad, p x) (htok : ∀ c ∈ cells, ∀ x ∈ c.tok, p x) (htr : ∀ x ∈ trail, p x) :
+    ∀ x ∈ renderCells cells trail, p x := by
+  intro x hx
+  simp only [renderCells, mem_append, mem_flatMap] at hx
+  rcases hx with ⟨c, hc, h | h⟩ | h
+  · exact hpad c hc x h
+  · exact htok c hc x h
+  · exact htr x h
+
+theorem cellsOk_pad (b : Bool) (cells : List Cell) (h : cellsOk b cells = true) :
+    ∀ c ∈ cells, c.pad.all isWs = true := by
+  induction cells generalizing b with
+  | nil => intro c hc; simp at hc
+  | cons a as ih =>
+    simp only [cellsOk, Bool.and_eq_true] at h
+    intro c hc
+    rcases mem_cons.mp hc with rfl | hc
+    · exact h.1.1.1.1
+    · exact ih false h.2 c hc
+
+/-- **numeric_row_quiet**: a printed thermo line whose tokens are numbers (padding = whitespace) contains no trigger
+    string: the quietness hypotheses of `read_render` / `ctor_render` about the data rows hold for every numeric table. -/
+theorem numeric_row_quiet (cells : List Cell) (trail : Str) (h : lineOk cells trail)
+    (hnum : ∀ c ∈ cells, c.tok.all isNumChar = true) :
+    NoTrigger (renderCells cells trail) ∧ PerfQuiet (renderCells cells trail) := by
+  have hall : ∀ x ∈ renderCells cells trail, isWs x = true ∨ isNumChar x = true := by
+    apply renderCells_chars
+    · intro c hc x hx
+      left
+      exact (List.all_eq_true.mp (cellsOk_pad true cells h.2.1 c hc)) x hx
+    · intro c hc x hx
+      right
+      exact (List.all_eq_true.mp (hnum c hc)) x hx
+    · intro x hx
+      left
+      exact (List.all_eq_true.mp h.2.2) x hx
+  have no : ∀ ch : Char, isWs ch = false → isNumChar ch = false → ch ∉ renderCells cells trail := by
+    intro ch h1 h2 hm
+    rcases hall ch hm with h | h
+    · rw [h1] at h; cases h
+    · rw [h2] at h; cases h
+  exact quiet_of_no_capital _ (no 'M' (by decide) (by decide)) (no 'P' (by decide) (by decide))
+    (no 'L' (by decide) (by decide))
+
+example : NoTrigger (renderCells [⟨[], "0".toList⟩, ⟨"\t".toList, "300.5".toList⟩, ⟨" ".toList, "-1.3e-4".toList⟩] []) :=
+  (numeric_row_quiet _ _ (by decide) (by decide)).1
+
 end Atomman.C19
